@@ -318,6 +318,8 @@ def _mshape(ty):
         return ('bool',)
     if isinstance(ty, _Str):
         return ('str',)
+    if isinstance(ty, Opaq):
+        return ('obj',)      # arbitrary objects, by handle (pyvc.mlist.handle_of)
     raise Unsupported('MListOf element type %r' % (ty,))
 
 
